@@ -255,7 +255,8 @@ impl<T: Transport + 'static> SyncEngine<T> {
         };
 
         // Handle checksum database
-        let checksum_db = if self.checksum && self.checksum_db {
+        // Opening the database creates it: a dry run plans from computed checksums instead
+        let checksum_db = if self.checksum && self.checksum_db && !self.dry_run {
             // Open checksum database
             match checksumdb::ChecksumDatabase::open(destination) {
                 Ok(db) => {
@@ -461,7 +462,7 @@ impl<T: Transport + 'static> SyncEngine<T> {
         };
 
         let resume_state = if self.resume {
-            match ResumeState::load(destination)? {
+            match ResumeState::load_with(destination, !self.dry_run)? {
                 Some(state) => {
                     if state.is_compatible_with(&current_flags) {
                         let (completed, total) = state.progress();
@@ -482,7 +483,9 @@ impl<T: Transport + 'static> SyncEngine<T> {
                         if !self.quiet {
                             println!("⚠️  Resume state incompatible, starting fresh sync");
                         }
-                        ResumeState::delete(destination)?;
+                        if !self.dry_run {
+                            ResumeState::delete(destination)?;
+                        }
                         Some(ResumeState::new(
                             source.to_path_buf(),
                             destination.to_path_buf(),
@@ -1314,7 +1317,7 @@ impl<T: Transport + 'static> SyncEngine<T> {
             if state_guard.is_some() {
                 // Only clean up if this was an actual resume operation
                 // (Don't clean up if we just created a new state that was never saved)
-                if ResumeState::load(destination)?.is_some() {
+                if !self.dry_run && ResumeState::load(destination)?.is_some() {
                     tracing::debug!("Cleaning up resume state file");
                     if let Err(e) = ResumeState::delete(destination) {
                         tracing::warn!("Failed to delete resume state: {}", e);
